@@ -127,7 +127,9 @@ class Not(qcore.Query):
     def normalize(self):
         q = self.query.normalize()
         if q is qcore.NullQuery:
-            return q
+            # Everything is not in the empty set
+            from whoosh.query import Every
+            return Every()
         else:
             return self.__class__(q, boost=self.boost)
 
